@@ -7,6 +7,8 @@ def run(R):
     if not R.build():
         return
     R.lean(["C17"])
+    import hunted
+    hunted.run(R, "C17")
     quick = R.tier == "quick"
     rng = R.rng
     jobs, meta = [], []
